@@ -20,7 +20,8 @@
 EXTENDS Cif, Json, IOUtils
 
 CONSTANT NBlocks
-Traces == JsonDeserialize(IOEnv.TRACE_FILE).traces
+ASSUME TLCSet(1, JsonDeserialize(IOEnv.TRACE_FILE).traces)     \* parsed once, not once per worker
+Traces == TLCGet(1)
 
 VARIABLES blk, tid
 vars == <<blk, tid, lines, pos, block, mode, parsed, keys, rows>>
